@@ -78,13 +78,59 @@ fn check(fill: usize, vals: &[i128], max: usize, use_drop: bool, big: usize) -> 
     }
 }
 
+/// histories over {W = write a value, F = flush, C = write_char} ended by a drop: the sink must hold exactly the renderings in order
+fn check_script(script: &str, max: usize) -> Option<Cex> {
+    let out = Rc::new(RefCell::new(Vec::new()));
+    let o2 = out.clone();
+    let sc = script.to_string();
+    let r = guarded(move || {
+        let mut w = Writer::new(Box::new(Sink { out: o2, max, k: 0 }));
+        let mut want: Vec<u8> = Vec::new();
+        let mut k = 0i64;
+        for op in sc.chars() {
+            match op {
+                'W' => { k += 1; let v = k * 1234567 - 5; w.write(&v); want.extend_from_slice(v.to_string().as_bytes()); }
+                'S' => { w.write(&"hello"); want.extend_from_slice(b"hello"); }
+                'C' => { w.write_char('\n'); want.push(b'\n'); }
+                'F' => { w.flush(); }
+                _ => {}
+            }
+        }
+        drop(w);
+        want
+    });
+    let got = out.borrow().clone();
+    match r {
+        Err(e) => Some(Cex { input: format!("script:{};{}", script, max), observed: e, expected: "no panic".into() }),
+        Ok(want) if want != got => Some(Cex { input: format!("script:{};{}", script, max),
+            observed: format!("history {} then drop: sink received {:?}", script, String::from_utf8_lossy(&got)), expected: format!("{:?}", String::from_utf8_lossy(&want)) }),
+        _ => None,
+    }
+}
+
 pub fn run(_seed: u64, replay: Option<String>) -> Outcome {
     if let Some(r) = replay {
+        if let Some(rest) = r.strip_prefix("script:") {
+            let p: Vec<&str> = rest.split(';').collect();
+            return Outcome { cex: check_script(p[0], p.get(1).and_then(|x| x.parse().ok()).unwrap_or(0)), cases: 1 };
+        }
         let p: Vec<&str> = r.split(';').collect();
         let vals: Vec<i128> = p[1].split(',').filter(|x| !x.is_empty()).map(|x| x.parse().unwrap_or(0)).collect();
         return Outcome { cex: check(p[0].parse().unwrap_or(0), &vals, p[2].parse().unwrap_or(0), p.get(3) == Some(&"1"), p.get(4).and_then(|x| x.parse().ok()).unwrap_or(0)), cases: 1 };
     }
     let mut cases = 0;
+    // every history of length <= 5 over {W, S, C, F} (incl. flushes of an empty buffer, repeated flushes, trailing chars), then drop
+    let alpha = ['W', 'S', 'C', 'F'];
+    for len in 0..=5usize {
+        for code in 0..alpha.len().pow(len as u32) {
+            let mut c = code; let mut sc = String::new();
+            for _ in 0..len { sc.push(alpha[c % 4]); c /= 4; }
+            for max in [0usize, 3] {
+                cases += 1;
+                if let Some(c) = check_script(&sc, max) { return Outcome { cex: Some(c), cases }; }
+            }
+        }
+    }
     let vals: Vec<i128> = vec![0, -1, i64::MIN as i128, u64::MAX as i128, -128, i128::MIN, i128::MAX, 7, 1000000007, -9, 10, 99, 100, -100, i64::MAX as i128, 255, 65535, -32768, 42, 1, 9];
     for fill in (65536 - 60..=65536).chain([0, 1, 65535 - 200]) {
         for max in [0usize, 1, 7] { for use_drop in [false, true] {
